@@ -169,6 +169,13 @@ func (r *Reporter) readSourceLines(filename string, lineNum, before, after int) 
 		return sourceLines{}
 	}
 
+	// The file as read does not have the reported line (a position remapped by a //line
+	// directive, a file that is shorter than expected): no excerpt rather than
+	// context lines without the line they are the context of
+	if lineNum < 1 || lineNum > len(lines) {
+		return sourceLines{}
+	}
+
 	start := lineNum - before - 1 // Convert to 0-based index
 	if start < 0 {
 		start = 0
